@@ -7,7 +7,10 @@ patch="$(realpath "$1")"; shift
 tier="${TIER:-quick}"
 if ! git -C /repo diff --quiet; then echo "refusing: /repo has uncommitted changes"; exit 2; fi
 if ! git -C /repo apply "$patch"; then echo "patch does not apply: $patch"; exit 2; fi
-trap 'git -C /repo checkout -- . >/dev/null 2>&1' EXIT
+# evidence files are rewritten by every run: keep the ones of the unchanged tree aside and put them back,
+# so that evidence written while a defect was applied can never be committed by accident
+keep="$(mktemp -d /tmp/evidence_keep.XXXXXX)"; cp -a /verif/evidence/. "$keep"/ 2>/dev/null
+trap 'git -C /repo checkout -- . >/dev/null 2>&1; cp -a "$keep"/. /verif/evidence/ 2>/dev/null; rm -rf "$keep"' EXIT
 cd /verif
 for id in "$@"; do
   out="$(./check "$id" "$tier" 2>&1)"; rc=$?
